@@ -223,26 +223,7 @@ private def turnLine (t : Nice.Turn.St) (o : Nice.Turn.Out) : String :=
     `0017 len cookie txid | 0012 XOR-PEER-ADDRESS | 0013 DATA` naming a peer of the table -/
 private def classifyDgram (b : Bytes) : Option (Option (Nat × Bytes)) :=
   if b.length < 20 || (b.getD 0 0).toNat ≥ 0x40 then some none
-  else
-    let txid := (b.drop 8).take 12
-    if b.take 2 != [0x00, 0x17] || (b.drop 4).take 4 != Nice.Turn.STUN_MAGIC_COOKIE then none
-    else
-      let body := b.drop 20
-      if be16 (b.getD 2 0) (b.getD 3 0) != body.length then none
-      else
-        (List.range 4).findSome? fun i =>
-          match turnPeers[i]? with
-          | none => none
-          | some pa =>
-            let a1 := Nice.Turn.attr 0x0012 (Nice.Turn.xorPeerValue pa txid)
-            if body.take a1.length != a1 then none
-            else
-              let rest := body.drop a1.length
-              if rest.take 2 != [0x00, 0x13] then none
-              else
-                let dl := be16 (rest.getD 2 0) (rest.getD 3 0)
-                let data := (rest.drop 4).take dl
-                if rest == Nice.Turn.attr 0x0013 data && data.length == dl then some (some (i, data)) else none
+  else (Nice.Turn.parseDataIndication turnPeers b).map some
 
 def turnStep (st : SockSt) (ws : List String) : SockSt × String :=
   match ws with
